@@ -37,6 +37,12 @@ func streamLife(c *corrOut, r *rng, n int, thorough bool) map[string]interface{}
 	if len(all) > n {
 		all = all[:n]
 	}
+	// termination while the command of an Exec runs (always run)
+	for _, ca := range []string{"kill", "ctx", "quitmsg", "quitapi", "interrupt", "panic-update"} {
+		for _, in := range []string{"nil", "pipe"} {
+			all = append(all, termScenario{ca, "in-exec", "none", in})
+		}
+	}
 	// termination while Run is still starting up (always run): inside the writer of the start-up mode
 	// sequences (the renderer exists but is not started), inside Init, inside the first View
 	for _, ca := range []string{"kill", "ctx"} {
